@@ -185,6 +185,8 @@ def interpret(case, observer=None):
     if case.get("unix"):
         addrs = [case["unix"]]
     env = Env(nservers=case.get("nservers", 1), pieces=case.get("pieces"), eintr=case.get("eintr"), addrs=addrs)
+    if case.get("unix", "").startswith("unix:"):
+        env.net.add_server(case["unix"][5:], env.servers[0])        # "unix:<path>" is a spelling of <path>
     if case.get("resolves"):
         # the host name resolves to several addresses (mixed families); all of them reach the same server
         host, port = env.addrs[0]
